@@ -13,6 +13,7 @@ import (
 
 	mintv3 "github.com/chain4energy/c4e-chain/x/cfeminter/migrations/v3"
 	minttypes "github.com/chain4energy/c4e-chain/x/cfeminter/types"
+	sdk "github.com/cosmos/cosmos-sdk/types"
 )
 
 var eps6 = new(big.Rat).SetFrac64(1, 1_000_000)
@@ -48,6 +49,10 @@ func runC02(c *fw.Case) {
 	}
 	if c.Index%16 == 13 {
 		c02MigrationProbe(c)
+		return
+	}
+	if c.Index%16 == 9 {
+		c02UpdateProbe(c)
 		return
 	}
 	mc := gen.Minters(c.R, gen.MintDenom(c.R), 36)
@@ -98,8 +103,16 @@ func runC02(c *fw.Case) {
 // committed state of the previous block); returning false ends the case.
 var c02BeforeBlock func(c *fw.Case, n *chain.Node, i int) bool
 
+// c02GenesisParams, when set by a probe, replaces the parameters the chain starts with (the
+// schedule the blocks are compared with stays the one passed to c02RunPartition).
+var c02GenesisParams *minttypes.Params
+
 func c02RunPartition(c *fw.Case, mc gen.MinterConfig, times []time.Time, pi int) (cum *big.Int, crossedPeriod, crossedStep, multiJump bool, blocks []c02Block) {
-	n, err := chain.NewNode(chain.GenesisSpec{Time: gen.Epoch, Minter: minterGenesis(mc.Params, gen.Epoch)})
+	genesisParams := mc.Params
+	if c02GenesisParams != nil {
+		genesisParams = *c02GenesisParams
+	}
+	n, err := chain.NewNode(chain.GenesisSpec{Time: gen.Epoch, Minter: minterGenesis(genesisParams, gen.Epoch)})
 	if err != nil {
 		if p := asPanic(err); p != nil {
 			c.Violate("C02/initchain-panic", "InitChain panicked for a valid configuration: %s", short(p.Value, 300))
@@ -306,4 +319,49 @@ func c02MigrationProbe(c *fw.Case) {
 	defer func() { c02BeforeBlock = nil }()
 	cum, _, _, _, _ := c02RunPartition(c, mc, times, 0)
 	c.Nontrivial(migrated && cum != nil && cum.Sign() > 0 && c.NViol() == 0)
+}
+
+// c02UpdateProbe: a schedule put in force by governance before anything was minted is the
+// schedule the emission follows - start time included. The chain starts with the generated
+// configuration shifted to an earlier start; before the first block an accepted
+// MsgUpdateMintersParams (every second time MsgUpdateParams) installs the generated one.
+func c02UpdateProbe(c *fw.Case) {
+	mc := gen.Minters(c.R, "uc4e", 36)
+	horizon := mc.Horizon(c.R)
+	bounds := mc.Schedule.Boundaries(horizon, 40)
+	times := gen.Partition(c.R, gen.Epoch, horizon, bounds, c.R.Intn(5), 40)
+	if mc.Params.StartTime.Before(gen.Epoch.Add(-100 * 365 * 24 * time.Hour)) {
+		return // the generator's "no start time" configurations have nothing to move
+	}
+	early := mc.Params
+	early.StartTime = mc.Params.StartTime.Add(-time.Duration(1+c.R.Intn(5*24*3600)) * time.Second)
+	c.Describe("update-before-start", strings.Join(mc.Desc, ""), mc.Describe(), early.StartTime.UnixNano())
+	if early.Validate() != nil || len(times) < 2 {
+		return
+	}
+	c02GenesisParams = &early
+	accepted := false
+	c02BeforeBlock = func(c *fw.Case, n *chain.Node, i int) bool {
+		if i != 0 {
+			return true
+		}
+		var msg sdk.Msg = &minttypes.MsgUpdateMintersParams{Authority: govAuthority(), StartTime: mc.Params.StartTime, Minters: mc.Params.Minters}
+		if c.R.Intn(2) == 0 {
+			msg = &minttypes.MsgUpdateParams{Authority: govAuthority(), MintDenom: mc.Params.MintDenom, StartTime: mc.Params.StartTime, Minters: mc.Params.Minters}
+		}
+		if _, _, err := n.GovExec(msg); err != nil {
+			if p := asPanic(err); p != nil {
+				c.ViolateD("C10/update-panic", p.Stack, "minter update panicked: %s", short(p.Value, 200))
+				return false
+			}
+			c.Count("update_probe_updates_refused", 1)
+			return false
+		}
+		accepted = true
+		c.Count("update_probe_updates_accepted", 1)
+		return true
+	}
+	defer func() { c02BeforeBlock, c02GenesisParams = nil, nil }()
+	cum, _, _, _, _ := c02RunPartition(c, mc, times, 0)
+	c.Nontrivial(accepted && cum != nil && cum.Sign() > 0 && c.NViol() == 0)
 }
